@@ -136,7 +136,16 @@ func sanitize(s string) string {
 func pkgQualifier(p *types.Package) string { return p.Name() }
 
 func typeKey(t types.Type) string {
-	return sanitize(types.TypeString(t, pkgQualifier))
+	k := sanitize(types.TypeString(t, pkgQualifier))
+	switch k {
+	case "byte":
+		return "uint8"
+	case "rune":
+		return "int32"
+	case "sl.byte":
+		return "sl.uint8"
+	}
+	return k
 }
 
 // structKey names a struct type: named types by their name, anonymous structs by their string.
